@@ -43,6 +43,15 @@ func FieldsOf(structType interface{}, fieldNames ...string) StructFields { retur
 
 var frontObRe = regexp.MustCompile(`/(ensures#\d+|requires-preserved#\d+|each#\d+|frame#\d+|loop\d+/inv#\d+|panic#\d+|typeassert#\d+|nilderef#\d+|index#\d+|typednil#\d+)`)
 
+// replayClause: the clause id the verifier looks for (GOVC_CLAUSE), or the harness's own reading of
+// GOVC_OBLIGATION.
+func replayClause(fallback string) string {
+	if c := os.Getenv("GOVC_CLAUSE"); c != "" {
+		return c
+	}
+	return fallback
+}
+
 func frontCases() []frontCase {
 	hdr := "//+build wireinject\n\npackage main\n\nimport \"github.com/google/wire\"\n\n"
 	return []frontCase{
@@ -127,6 +136,7 @@ func TestReplay_frontend(t *testing.T) {
 	if m := frontObRe.FindStringSubmatch(os.Getenv("GOVC_OBLIGATION")); m != nil {
 		obClause = m[1]
 	}
+	obClause = replayClause(obClause)
 	for _, c := range frontCases() {
 		if c.clause == "*" {
 			// a semantic case: it witnesses whichever clause of its function failed
